@@ -111,6 +111,12 @@ DEFS = [
     struct("CTry", [], error="RecErr", cfrom={"kind": "try", "ty": U8, "ref": True}, validate=True),
     enum("EValidate", [variant("A"), variant("B", [field("x", U8)])], tag="t", error="RecErr", validate=True),
     enum("EUnitValidate", [variant("A"), variant("B")], error="RecErr", validate=True),
+    # generic error parameter + user functions returning FnErr: the derive adds `E: MergeWithError<FnErr>`, which the built-in error
+    # types satisfy through their blanket impl for std errors
+    struct("GTry", [field("a", U8, frm={"kind": "try", "ty": U8, "ref": False}), field("b", BOOL), field("c", STR, frm={"kind": "from", "ty": STR, "ref": False})],
+           validate=True),
+    enum("GEnum", [variant("A"), variant("B", [field("x", U8, frm={"kind": "try", "ty": U8, "ref": True})])], tag="t", validate=True),
+    struct("GCTry", [], cfrom={"kind": "try", "ty": ("vec", U8), "ref": False}),
     struct("FNest", [field("inner", ("ref", "FTry")), field("list", ("vec", ("ref", "FValidate"))), field("cf", ("ref", "CTry"))], error="RecErr"),
 ]
 
@@ -141,5 +147,6 @@ ENTRIES = [
     ("vec", ("ref", "EUnit")), ("hmap", "String", ("ref", "ETagCamel")), ("bmap", "i32", ("ref", "SDefault")), ("opt", ("ref", "SMix")),
     ("vec", ("cs", "String")), ("hset", ("opt", U8)),
     ("ref", "FFrom"), ("ref", "FTry"), ("ref", "FTryF"), ("ref", "FMap"), ("ref", "FValidate"), ("ref", "FMissing"), ("ref", "FDenyFn"), ("ref", "FAll"),
+    ("ref", "GTry"), ("ref", "GEnum"), ("ref", "GCTry"), ("vec", ("ref", "GTry")),
     ("ref", "CFrom"), ("ref", "CTry"), ("ref", "EValidate"), ("ref", "EUnitValidate"), ("ref", "FNest"), ("vec", ("ref", "FTry")),
 ]
